@@ -32,6 +32,8 @@ type schedRun struct {
 	pct      map[string]int // priorities (PCT-like strategy) when non-nil
 	forceStep int           // hold forceWho until this step, then release it first (-1: off)
 	forceWho  []string
+	lazySites map[string]bool // goroutines parked at these sites run only when nothing else can
+	markSites map[string]string // releasing a goroutine at one of these sites appends this event to the history
 }
 
 func newSchedRun(g *prng) *schedRun {
@@ -97,6 +99,17 @@ func (r *schedRun) quiet() int {
 		if len(ps) == 0 {
 			return n
 		}
+		if len(r.lazySites) > 0 {
+			var eager []*verifG
+			for _, g := range ps {
+				if !r.lazySites[g.site] {
+					eager = append(eager, g)
+				}
+			}
+			if len(eager) > 0 {
+				ps = eager
+			}
+		}
 		var pick *verifG
 		if r.forceStep >= 0 {
 			isForced := func(n string) bool {
@@ -158,6 +171,13 @@ func (r *schedRun) quiet() int {
 			pick = ps[r.g.intn(len(ps))]
 		}
 		r.trace = append(r.trace, pick.name+"@"+pick.site)
+		for suffix, evn := range r.markSites {
+			if strings.HasSuffix(pick.site, suffix) {
+				r.s.mu.Lock()
+				r.hist = append(r.hist, fmt.Sprintf("%s %d", evn, pick.ep))
+				r.s.mu.Unlock()
+			}
+		}
 		r.steps++
 		n++
 		r.s.release(pick)
